@@ -17,8 +17,8 @@ CLAIM = ("The Lean model of parse.rs (Model/Parse.lean: terminal lexer incl. esc
          "(the three-phase literal lexer = a character-by-character reference decoder, on every input), terminal_roundtrip / "
          "terminal_roundtrip_escape_all (every literal over the permitted characters, printed with the fewest escapes or with every "
          "special character escaped, reads back exactly), description_roundtrip (every description with quotes and backslashes escaped "
-         "reads back exactly), and the facts about blanks and comments. The theorem pp_parse for the operator ladder is open.")
-NOTE = ("Open: pp_parse (operator precedence / minimal parentheses) over Model/Parse.lean; the two lexer round trips are proved. Trusted: the Python printer (minimum parentheses, fewest "
+         "reads back exactly), and the facts about blanks and comments. ladder_roundtrip (Proofs/Ladder.lean): every normal-form tree over literals of regular characters, nonterminals and commands built with sequence, |, ||, [ ] and postfix ..., printed with the minimum of parentheses (Parse.pp), is read back by the parser model as the same tree up to spans — and the text this Lean printer produces for every such tree with <= N nodes is fed to the real parser on every run. Open: juxtaposition, descriptions after groups and escaped literals inside the ladder, arbitrary layout.")
+NOTE = ("Proved: the two lexer round trips and the operator ladder on its fragment; open: the ladder with juxtaposition / group descriptions / layout. Trusted: the Python printer (minimum parentheses, fewest "
         "escapes) — it is the specification of the surface syntax here — and vh's tree dump.")
 TECHNIQUE = "exact correspondence of the Lean parser model with the real parser (trees, spans, error locations) + Lean round-trip theorems for the literal and description lexers + print/parse round trip on the real parser"
 DESIGN_REF = "§3 C05"
@@ -65,6 +65,24 @@ def tree_text(e):
         cs = [flatten_sub(c) for c in e[1]]
         return f"W 0 S {len(cs)} " + "".join(tree_text(c) for c in cs)
     raise ValueError(k)
+
+
+def spanned_wire(t):
+    """wire text (with dummy source positions) of the grammar `cmd <t>;` for trees of the ladder fragment"""
+    sp = "1:1:1 "
+
+    def w(e):
+        k = e[0]
+        if k == "lit":
+            return f"T {core.hexs(e[1])} {hexopt(e[2])} 0 " + sp
+        if k == "nt":
+            return f"N {core.hexs(e[1])} 0 " + sp
+        if k == "cmd":
+            return f"C {core.hexs(e[1].strip())} 0 0 " + sp
+        if k in ("seq", "alt", "fb"):
+            return f"{ {'seq': 'S', 'alt': 'A', 'fb': 'F'}[k]} {len(e[1])} " + sp + "".join(w(c) for c in e[1])
+        return {"opt": "O ", "many": "M "}[k] + sp + w(e[1])
+    return (f"G 1 V {core.hexs('cmd')} " + sp + w(t)).strip()
 
 
 def grammar_text(variants, defs):
@@ -122,6 +140,23 @@ def enrich(rng, e):
     return gen.map_tree(f, e)
 
 
+def in_ladder_fragment(e, top=True):
+    """the fragment of Proofs/Ladder.lean: undescribed literals of regular characters (not starting with `#`),
+    nonterminals, commands; sequence, |, ||, [ ], ... with >= 2 operands; no juxtaposition, no group descriptions"""
+    k = e[0]
+    if k in ("seq", "alt", "fb"):
+        return len(e[1]) >= 2 and all(in_ladder_fragment(c, False) for c in e[1])
+    if k in ("opt", "many"):
+        return in_ladder_fragment(e[1], False)
+    if k == "lit":
+        return e[2] is None and e[1] != "" and all(c in gram.REGULAR for c in e[1]) and not e[1].startswith("#")
+    if k == "nt":
+        return e[1] != "" and ">" not in e[1]
+    if k == "cmd":
+        return e[1] == e[1].strip() and "}}}" not in e[1]
+    return False
+
+
 def render_min(variants, defs):
     old = gram.lit
     gram.lit = gram.lit_min
@@ -177,6 +212,16 @@ def run(ctx, proof):
         if i % 7 == 0:
             cases.append((f"small-layout:{i}", c14.relayout(rng, text), want))
     ctx.count("exhaustive-small", len(cases))
+    # the printer of Proofs/Ladder.lean (the one `ladder_roundtrip` is about) on the trees of its fragment: the text it
+    # prints must be read by the real parser as the tree it was printed from
+    frag = [t for t in gen.small_exprs(n) if in_ladder_fragment(t)]
+    reqs = ["pp " + spanned_wire(t) for t in frag]
+    for i, (t, a) in enumerate(zip(frag, core.driver_parallel(reqs))):
+        if a.startswith("ok "):
+            cases.append((f"ladder-pp:{i}", core.unhexs(a[3:]) + "\n", grammar_text([t], [])))
+        else:
+            ctx.correspondence_breaks.append(("ladder-pp", {"tree": grammar_text([t], []), "answer": a}))
+    ctx.count("ladder-printer", len(frag))
     nr = 20000 if ctx.thorough() else 1200
     for i in range(nr):
         g = gen.Gen(rng, max_depth=rng.choice([2, 3, 4, 5]), p_descr=0.4, p_sub=0.25)
